@@ -310,6 +310,12 @@ pub const FIELD_RUST_NONRAW: [&str; 4] = ["self", "Self", "super", "crate"];
 pub const TYPE_ORDINARY: [&str; 12] = ["Foo", "Bar", "NetDev", "T", "T1", "State", "Info", "MyType", "Item", "Config", "A", "Z9"];
 pub const TYPE_KW_LIKE: [&str; 14] = ["Type", "Method", "Interface", "Bool", "Int", "Float", "Object", "Fn", "Match", "Struct", "Async", "Dyn", "Try", "Enum"];
 pub const METHOD_ORDINARY: [&str; 12] = ["Ping", "GetInfo", "Start", "Stop", "TestMore", "List", "Get", "Set", "Monitor", "Run", "Q", "DoIt2"];
+/// method names whose snake_case form is a Rust keyword (strict, reserved, or one that cannot be a raw
+/// identifier): the generator's former known class K4, repaired in /repo
+pub const METHOD_KW_LIKE: [&str; 30] = [
+    "Type", "Match", "Fn", "Do", "Loop", "Move", "Self", "Super", "Crate", "Async", "Try", "Yield", "Box", "Ref", "Use", "Mod", "Impl", "Where", "In",
+    "As", "If", "For", "Let", "Static", "Struct", "Return", "True", "Await", "Abstract", "Override",
+];
 /// includes `InterfaceNotFound`: an interface may declare its own error with the local name of a
 /// standard one (`org.example.InterfaceNotFound` is not `org.varlink.service.InterfaceNotFound`). The
 /// other three standard names fall into the generator's known class K8 (`reply_method_not_found` ...
@@ -492,7 +498,11 @@ pub fn gen_idl(t: &mut Tape, o: &GenOpts) -> Idl {
         members.push(Member { name: n.clone(), docs: vec![], def: Def::Type(def) });
     }
     for _ in 0..nm {
-        let n = distinct(METHOD_ORDINARY[t.pick(METHOD_ORDINARY.len())].to_string(), &mut used);
+        let n = if o.rust_keywords && t.chance(1, 6) {
+            distinct(METHOD_KW_LIKE[t.pick(METHOD_KW_LIKE.len())].to_string(), &mut used)
+        } else {
+            distinct(METHOD_ORDINARY[t.pick(METHOD_ORDINARY.len())].to_string(), &mut used)
+        };
         let mut i = gen_fields(t, o, o.max_depth, &type_names, &[]);
         let mut out = gen_fields(t, o, o.max_depth, &type_names, &[]);
         // every so often a method whose inputs (or outputs) are all optional
